@@ -583,8 +583,13 @@ func evExec(w *world, f []string) (res string, ok bool) {
 	if f[0] == "reset" {
 		w.deb.close()
 		w.deb = nil
+		w.evq.close()
+		w.evq = nil
 		if len(f) == 2 && f[1] == "evdb" {
 			return debExec(w, f), true
+		}
+		if len(f) == 2 && f[1] == "evq" {
+			return evqExec(w, f), true
 		}
 		if len(f) < 2 || (f[1] != "ev" && f[1] != "evc" && f[1] != "e2e") {
 			w.ev.close()
@@ -593,6 +598,8 @@ func evExec(w *world, f []string) (res string, ok bool) {
 		}
 	} else if strings.HasPrefix(f[0], "evdb") {
 		return debExec(w, f), true
+	} else if f[0] == "evq" || strings.HasPrefix(f[0], "evqfire") || strings.HasPrefix(f[0], "evqrun") || f[0] == "evqhandled" {
+		return evqExec(w, f), true
 	} else if !strings.HasPrefix(f[0], "ev") && !strings.HasPrefix(f[0], "e2e") {
 		return "", false
 	}
